@@ -402,3 +402,73 @@ def expr(case, res):
 def agree(case, res, mo):
     return None if case.get('k') == 'longgap' else _agree0(case, res, mo)
 # ================================================= end of the long-gap addition =======================================
+
+
+# ====================================================================================================================
+# Translator tie (appended; nothing above is changed).  On every run coq/gen/QueueStepGen.v is REGENERATED from the
+# source under test by translate/pyqueue2coq.py: one Gallina definition per method of the generation path of
+# AbstractSignalQueue and its subclasses (_get_samples_waveform, _get_samples_generator, remove_key, decrement_key x3,
+# next_key x5, pop_key, pop_next, next_trial, _pop_buffer, pop_buffer), statement by statement, and the dispatch of
+# next_key / decrement_key as the class hierarchy of the source resolves it.  coq/Queue/ProofsTie.v proves these
+# definitions equal to the hand-written model (theorems C02_source_* of coq/Props/C02.v), so a change of the bookkeeping
+# in queue.py that the model does not have breaks those proofs (reported by the driver as a broken tie), whether or
+# not a generated history reaches it.
+import os as _os
+import vlib as _vlib
+from translate import pyqueue2coq as _pyqueue2coq
+
+GEN = 'gen/QueueStepGen.v'
+TRUSTED += [
+    'translate/pyqueue2coq.py (fail-closed `ast` translator psiaudio/queue.py -> coq/gen/QueueStepGen.v).  Its tables pin: the '
+    'class hierarchy (bases of the seven classes) and the set of method names of every class; the signatures of the translated '
+    'methods; whole texts of as_iterator, _notify (the recorder of the harness is the subscriber), AbstractSignalQueue.next_key, '
+    'the __init__ of the interleaved / blocked-random / grouped / blocked-FIFO queues and BlockedFIFOSignalQueue.append (the '
+    'policy parameters: keep_complete_waveforms and group_size are the arguments of the model\'s policy constructor; a '
+    'blocked-FIFO queue is PGrouped (number of stimuli)); in next_trial the source set-up (`self._source = data[\'source\']` + the '
+    'try: reset() / except AttributeError block -> the whole waveform of the stimulus, read by the reader that matches its kind), '
+    '`delay = next(data[\'delays\'])` + `int(round(delay * self._fs))` -> the model\'s delay iterator in samples (the harness hands the '
+    'model that integer), `t0 = self._t0 + self._samples / self._fs` -> the clock in samples; `return self._get_samples(samples)` -> '
+    'the reader matching the kind of the queued source; the \'decrement\' notification dropped (no counterpart in the model; checked '
+    'by harness/queuecore.py); np.random.randint / RandomState.shuffle -> the model\'s oracles q_choices (the KEY drawn, checked to be '
+    'queued) / q_perms; logging dropped.  The fuel of the interleaved queue\'s `while True` is len(_ordering) (the cursor has that '
+    'period); out of fuel is an error value, as in the model.  Dicts keyed by uuid are the model\'s lists indexed by insertion '
+    'number; a local `data = self._data[key]` is a reference to the shared dict (translated to the key, after the KeyError check); '
+    'the other methods of these classes (pause / cancel / requeue / resume / rewind_samples / append / ...) are not translated and '
+    'not called by the translated ones: they stay tied by the differential harness.  Self-test on every translation '
+    '(translate/pyqueue_selftest.py): 14 real queues (every class, array and factory sources, fs = 1) driven to random states, '
+    'every translated entry point run on the REAL object and the outcome - value, exception, all fields and notifications '
+    'afterwards, random choices recorded in a dry run - emitted as an Example that Coq checks by vm_compute against the '
+    'generated definition)',
+    'coq/Queue/TieLib.v: exceptions as values; the object = model state + notifications so far; an ndarray source as a view '
+    '(key, start, stop) of the queued waveform with CPython slice adjustment (Common/PySlice py_lo / py_hi), a factory as '
+    '(key, position, length) with n_samples_remaining / next / is_complete; np.zeros / np.concatenate refusing a negative length / '
+    'an empty list; l[i] with negative indices, list.remove, list.pop, % with ZeroDivisionError']
+
+
+def translate(repo):
+    """Regenerate coq/gen/QueueStepGen.v from the source under test.  Anything the translator cannot digest (or a real
+    method that fails in the self-test) is written as a generated file that does not compile, so that the driver reports
+    the C02_source_* proofs as broken (fail closed)."""
+    info = {'gen_files': [GEN], 'source': [_os.path.join(repo, 'psiaudio/queue.py')], 'gap': None}
+    try:
+        text, tinfo = _pyqueue2coq.generate(repo)
+        info.update(tinfo)
+    except _vlib.MachineryError:
+        raise
+    except Exception as e:
+        info['gap'] = f'{type(e).__name__}: {e}'
+        msg = ''.join(ch if ch.isalnum() or ch in " _.,:;()[]{}=+-*/<>'`" else ' ' for ch in info['gap'])
+        msg = msg.replace('(*', '( *').replace('*)', '* )')[:400]
+        # deliberately ill-typed, so that the build fails and coqc's error message carries the reason
+        text = ('(* GENERATED by harness/C02.py translate(): translate/pyqueue2coq.py stopped on\n'
+                f'   {repo}/psiaudio/queue.py - do not edit. *)\n'
+                'From Coq Require Import ZArith String.\n'
+                f'Definition translator_gap : Z :=\n  "{msg}"%string.\n')
+    with open(_os.path.join(_vlib.COQ, GEN), 'w') as f:      # always rewritten: always re-checked
+        f.write(text)
+    # the correspondence files only need the hand-written model; make sure it is built even if the tie breaks
+    for r in REQUIRES:
+        rc, out = _vlib.coq_build(r.replace('.', '/') + '.vo')
+        if rc != 0:
+            raise _vlib.MachineryError(f'{r} does not build:\n' + out[-3000:])
+    return info
